@@ -29,6 +29,8 @@ type CheckCtx struct {
 
 	// RaceSamples: how many scenarios are re-executed with the -race worker after the exploration.
 	RaceSamples int
+	// RaceBudget: no new scenario is started in the race leg after this long (0: no limit).
+	RaceBudget time.Duration
 	raceSamples []raceSample
 	inRaceLeg   bool
 
@@ -169,7 +171,11 @@ func (c *CheckCtx) RaceLeg() {
 	defer func() { c.Env = saved }()
 	var wg sync.WaitGroup
 	sem := make(chan struct{}, c.Par)
+	stop := time.Now().Add(c.RaceBudget)
 	for _, rs := range c.raceSamples {
+		if c.RaceBudget > 0 && time.Now().After(stop) {
+			break
+		}
 		wg.Add(1)
 		sem <- struct{}{}
 		go func(rs raceSample) {
